@@ -7,6 +7,7 @@ import (
 	"fmt"
 	"sort"
 	"strings"
+	"sync"
 	"time"
 
 	"verif/mc"
@@ -70,6 +71,7 @@ type world struct {
 	// lastEntry: when the last request (of anybody) entered the NFSv4.0 /
 	// NFSv4.1 server, on the fake clock (see lapsed.go).
 	lastEntry [2]time.Time
+	entryMu   sync.Mutex // concurrent scenarios call compound() from several threads
 }
 
 func newWorld(x *mc.X) *world {
@@ -98,7 +100,9 @@ func (w *world) compound(minor uint32, what string, ops ...nfsv4.NfsArgop4) *nfs
 		w.x.CheckNoLocksHeld(what)
 	}
 	if enteredServer(minor, ops, res) {
+		w.entryMu.Lock()
 		w.lastEntry[minor&1] = w.clk.Now()
+		w.entryMu.Unlock()
 	}
 	return res
 }
